@@ -176,6 +176,12 @@ pub struct Shadow {
     /// leaks (objects, blocks, deferred functions) are also attributed to this (C20 in the
     /// thread tear-down families: "without leaking the garbage that thread produced")
     pub leak_extra: &'static str,
+    /// threads that are running their thread-local destructors
+    pub tls_phase: Vec<bool>,
+    /// per thread: lowest / highest stack address at which a payload destructor ran
+    pub dtor_stack: Vec<(usize, usize)>,
+    /// raise signal 7 when a cascade reclaims a node at this depth (0 = off)
+    pub signal_depth: u32,
     pub debug_watch: Option<u32>,
     pub debug_last: u64,
     pub watch_obj: Option<u32>,
@@ -239,11 +245,26 @@ impl Shadow {
             strong_extra: "",
             weak_extra: "",
             leak_extra: "",
+            tls_phase: Vec::new(),
+            dtor_stack: Vec::new(),
+            signal_depth: 0,
             debug_watch: std::env::var("VERIF_WATCH").ok().and_then(|s| s.parse().ok()),
             debug_last: 0,
             watch_obj: None,
             watch_decision: None,
         }
+    }
+
+    pub fn note_dtor_stack(&mut self, tid: usize, addr: usize) {
+        if tid == crate::sched::NONE {
+            return;
+        }
+        if self.dtor_stack.len() <= tid {
+            self.dtor_stack.resize(tid + 1, (usize::MAX, 0));
+        }
+        let e = &mut self.dtor_stack[tid];
+        e.0 = e.0.min(addr);
+        e.1 = e.1.max(addr);
     }
 
     pub fn soft(&mut self, prop: &str, signature: &str, detail: String) {
@@ -573,6 +594,7 @@ impl Shadow {
     pub fn counters_json(&self) -> J {
         J::obj()
             .set("objects", self.objs.len())
+            .set("dtor_stack_span_max", self.dtor_stack.iter().filter(|e| e.1 >= e.0).map(|e| e.1 - e.0).max().unwrap_or(0))
             .set("root_destructs", self.n_root_destructs)
             .set("cascade_destructs", self.n_cascade_destructs)
             .set("destruct_during_foreign_cs", self.n_destruct_during_foreign_cs)
@@ -753,6 +775,10 @@ impl Monitor for RcMonitor {
                 sh.last_reclaim_now = Some((a, b, c));
                 if b > 0 {
                     sh.n_reclaim_now_child += 1;
+                    if b as u32 == sh.signal_depth {
+                        sim().raise_signal(7);
+                        sim().probe("cascade_depth_signal");
+                    }
                 }
                 crate::c12::on_reclaim_decision(sh, a, b, c as u64, true);
             }
@@ -766,6 +792,22 @@ impl Monitor for RcMonitor {
                 crate::c12::on_reclaim_decision(sh, a, b, sh.last_global_read[tid], false);
             }
             kind::STAMP_WRITE => {
+                // The stamp is an epoch the writer read inside its critical section, so it is the
+                // clock or its predecessor. An older one makes a cascade take the object for
+                // unreachable while a reader may just have loaded it (the mechanism behind C02).
+                let clock = sim().clock.map(|f| f()).unwrap_or(0);
+                if (b as u64) + 1 < clock {
+                    let in_tls = sh.tls_phase.get(tid).copied().unwrap_or(false);
+                    let det = format!(
+                        "t{} stamped the count word of the block at {:#x} with epoch {} while the clock is at {}{}",
+                        tid, a, b, clock, if in_tls { " (from a thread-local destructor)" } else { "" }
+                    );
+                    if in_tls {
+                        sh.soft("C02,C20", "stale-stamp-in-tls-destructor", det);
+                    } else {
+                        sh.soft("C02", "stale-stamp", det);
+                    }
+                }
                 if let Some(&o) = sh.addr2id.get(&a) {
                     sh.objs[o as usize].stamp_full = Some(b as u64);
                     sh.objs[o as usize].stamp_min = Some(b as u64);
